@@ -161,6 +161,12 @@ def equiWeights (n : Nat) (a b : List α) : List α :=
   let vol := prodL (List.zipWith (fun y x => y - x) b a)
   List.replicate n (vol / (n : α) * 1)
 
+/-- `qnwequi`: `nodes = a + nodes * r` with `r = b - a`, applied to the rows `T` of fractional parts
+    (`outer(i, j) - fix(outer(i, j))` for the N / W / H sequences, the random draws for R): row `t`
+    becomes `(a_k + t_k (b_k − a_k))_k`.  The fractional parts themselves are a parameter. -/
+def equiNodes (a b : List α) (T : List (List α)) : List (List α) :=
+  T.map fun t => (List.range a.length).map fun k => a.getD k 0 + t.getD k 0 * (b.getD k 0 - a.getD k 0)
+
 /-! ### qnwnorm: affine image of the standard nodes -/
 
 /-- column `j` of a matrix given by rows -/
@@ -511,6 +517,10 @@ def handle (toks : List String) : String :=
   | "equiw" :: r =>
     match kvNat r "n", kvFloats r "a", kvFloats r "b" with
     | some n, some a, some b => showList showFloatBits (equiWeights n a b)
+    | _, _, _ => "bad-op"
+  | "equinodes" :: r =>
+    match kvFloats r "a", kvFloats r "b", kvFloatMat r "T" with
+    | some a, some b, some T => showMat showFloatBits (equiNodes a b T)
     | _, _, _ => "bad-op"
   | "quad" :: r =>
     match kvRats r "w", kvRats r "fx" with
